@@ -19,7 +19,7 @@
 EXTENDS Naturals, Sequences, FiniteSets
 
 Names == <<"Ordered", "AtMostOne", "GetOrAddIdempotent", "RemoveRemovesAll", "ChangeToLeavesExactlyOne">>
-CreatingOps == {"Insert", "Add", "PublicAdd", "GetOrAdd", "ChangeTo"}
+CreatingOps == {"Insert", "Add", "PublicAdd", "GetOrAdd", "ChangeTo", "Hand"}
 
 Has(kids, t) == \E i \in DOMAIN kids : kids[i] = t
 Count(kids, t) == Cardinality({i \in DOMAIN kids : kids[i] = t})
@@ -64,6 +64,8 @@ ImplStep(kids, op, d) ==
     [] op = "GetOrAdd"  -> ImplGetOrAdd(kids, d)
     [] op = "RemoveAll" -> ImplRemove(kids, d)
     [] op = "ChangeTo"  -> ImplChangeTo(kids, d)
+    [] op = "Hand"      -> ImplInsert(kids, d)      \* a hand-written adder (CT_GroupShape.add_*): builds the child, then
+                                                    \* self.insert_element_before(child, *succ) - succ read off its behaviour
 
 (* ------------------------------------------------------------------------------------------------------------ *)
 (* PROPERTY layer                                                                                                 *)
@@ -101,7 +103,7 @@ PlacedInOrder(c, kids, ch) ==
                                => Rk(c, kids[i]) <= Rk(c, kids[j])
 
 \* does this step have to create a child (and so place it)?
-Creates(s, op, d) == op \in {"Insert", "Add", "PublicAdd"} \/ (op \in {"GetOrAdd", "ChangeTo"} /\ ~Has(s, d.child))
+Creates(s, op, d) == op \in {"Insert", "Add", "PublicAdd", "Hand"} \/ (op \in {"GetOrAdd", "ChangeTo"} /\ ~Has(s, d.child))
 
 \* the Ordered clause is stated for schema-permitted pre-states only
 OrderedJudged(c, d, s, op) == op \in CreatingOps /\ Known(c, d.child) /\ Creates(s, op, d) /\ PermittedFor(c, s, d.child)
@@ -137,7 +139,7 @@ OwnSlotFree(c, kids, ch) ==
         \/ IF s.excl THEN SlotKids(c, kids, i) = <<>> ELSE ~Has(kids, ch)
      /\ (s.alt # 0 /\ \A x \in DOMAIN kids : Known(c, kids[x])) => OneAlternative(c, Append(kids, ch))
 OpEnabled(c, d, kids, op) ==
-  CASE op \in {"Insert", "Add", "PublicAdd"} -> OwnSlotFree(c, kids, d.child)
+  CASE op \in {"Insert", "Add", "PublicAdd", "Hand"} -> OwnSlotFree(c, kids, d.child)
     [] op = "GetOrAdd" -> Has(kids, d.child) \/ OwnSlotFree(c, kids, d.child)
     [] OTHER -> TRUE
 =============================================================================
